@@ -56,6 +56,32 @@ def main():
             print("model vs code now:", verdict)
             still = still or bool(bad)
             C.cleanup()
+    if not still and d.get("index") is not None and d["kind"] == "oracle-violation":
+        # the input alone no longer fails: was it the HISTORY of the process (state shared between instances)?  Re-run
+        # the suites of this property in the order and with the generator state of the recorded run, up to that case.
+        import random
+        import props
+        rng = random.Random(f"{d.get('seed', 0)}-{pid}-{d.get('tier', 'quick')}")
+        verdict = None
+        for s2 in props.PROPS[pid]["suites"](d.get("tier", "quick")):
+            seen = set()
+            k = 0
+            for c2 in s2.cases(rng, d.get("tier", "quick")):
+                key = s2.key(c2)
+                if key in seen:
+                    continue
+                seen.add(key)
+                o2 = s2.run_impl(c2)
+                if s2.name == suite.name and k == d["index"]:
+                    verdict = getattr(s2, f"oracle_{pid}")(c2, o2)
+                    break
+                k += 1
+            if s2.name == suite.name:
+                break
+        print("in sequence      :", verdict if verdict else "no violation either")
+        if verdict:
+            print("                   (the case fails only after the cases run before it in the same process)")
+        still = bool(verdict)
     if "--trace" in flags:
         print(json.dumps(out, indent=1, default=str))
     sys.exit(1 if still else 0)
